@@ -43,6 +43,9 @@ GET_BEHAVIOURS = ["cl", "chunked", "close-delimited", "cl-conn-close", "204", "3
 POST_BEHAVIOURS = ["cl", "eof-in-headers", "cl-then-unsolicited", "cl-then-silent-close", "204+stray-same-seg",
                    "stall-before-status-reply-late"]
 HEAD_BEHAVIOURS = ["head-cl", "head-cl+body-sent", "head-cl-conn-close", "head-chunked"]
+# method tokens are case-sensitive (RFC 9110 9.1): "head" handed straight to urlopen() goes out as written and is an
+# ordinary unknown method for the server and for http.client - its response has a body like any other
+LOWER_HEAD_BEHAVIOURS = ["cl", "cl-2-now-rest-late", "cl-head-now-body-late"]
 SEGMENTATIONS = ["whole", "split-after-head", "bytes"]
 CALLERS = ["preload", "read", "read2-release", "release", "drain", "close", "stream3", "abandon", "read2-abandon",
            # "released early" and then disposed of: close() / dropping the last reference (IOBase.__del__ -> close())
@@ -301,7 +304,7 @@ def execute(cfg, steps, acc=None, trace=None):
 def step_alphabet(last):
     out = []
     callers = LAST_CALLERS if last else CALLERS
-    for method, behs in (("GET", GET_BEHAVIOURS), ("POST", POST_BEHAVIOURS), ("HEAD", HEAD_BEHAVIOURS)):
+    for method, behs in (("GET", GET_BEHAVIOURS), ("POST", POST_BEHAVIOURS), ("HEAD", HEAD_BEHAVIOURS), ("head", LOWER_HEAD_BEHAVIOURS)):
         for b in behs:
             segs = SEGMENTATIONS if (method == "GET" and b in ("cl", "chunked", "204+stray-same-seg", "100-then-200", "cl-then-unsolicited")) else ["whole"]
             for s in segs:
